@@ -5,7 +5,7 @@ ENTRY = {
     "level": "proof",
     "families": [fam("C23", 400, 15000, opts={"quick": _Q, "thorough": _T})],
     "gen_items": [],
-    "rule": "generated statements over an outer table t0(id0,k0,x0,v0) and an inner table t1(id1,k1,y1,w1) (0-33 x 0-27 rows, key/operand types BIGINT/INTEGER/VARCHAR/DOUBLE/DATE, "
+    "rule": "one statement in three runs over an outer table holding FULLY duplicate rows (2-4 copies incl. id0, shuffled into the same and into different batches; tag outer:dup-rows) so that the row-by-row paths' per-outer-row caches (set/get_correlated_cache) get hits; generated statements over an outer table t0(id0,k0,x0,v0) and an inner table t1(id1,k1,y1,w1) (0-33 x 0-27 rows, key/operand types BIGINT/INTEGER/VARCHAR/DOUBLE/DATE, "
             "NULL density 0/10/50/100 % per column, duplicate correlation values, empty tables and empty subquery results): x [NOT] IN (SELECT y ...), [NOT] EXISTS (...), "
             "v <cmp> (SELECT agg(w) ...) incl. 0 = (SELECT COUNT(*) ...), x = (SELECT y ...) with 0/1/>1 rows; uncorrelated, equality-correlated, non-equality-correlated; as the whole WHERE, "
             "under AND, under OR, in the SELECT list; outer references qualified or bare; each statement run twice (production rules / SubqueryDecorrelation+FlattenDependentJoin removed) over "
@@ -20,7 +20,7 @@ ENTRY = {
                     "one subquery per statement, subquery FROM is a single table, correlation predicates compare one outer column with one inner column"],
     "min_tags": dict([(f"s:{f}:top:{r}", 3) for f in _FORMS for r in ("default", "nodecorr")] +
                      [(f"s:{f}:{p}:default", 1) for f in ("in", "in_not", "exists", "scalar_agg") for p in ("or", "select")] +
-                     [("path:join:in", 3), ("path:rowbyrow:in_not", 3), ("path:join:exists", 3), ("path:join:scalar_agg", 3), ("path:rowbyrow:in", 3), ("path:rowbyrow:scalar_row", 3)]),
+                     [("path:join:in", 3), ("path:rowbyrow:in_not", 3), ("path:join:exists", 3), ("path:join:scalar_agg", 3), ("path:rowbyrow:in", 3), ("path:rowbyrow:scalar_row", 3), ("outer:dup-rows", 60)]),
     "manifest": {
         "category": "proof",
         "text": "29 Lean theorems (IQE.Props.C23). Row by row: the model of evaluate_in_subquery's loop with the intended NULL handling IS Spec's three-valued IN / NOT IN for every operand "
